@@ -4,12 +4,12 @@ import json, os, sys
 ROOT = os.path.dirname(os.path.abspath(__file__))
 sys.path.insert(0, ROOT)
 from props import PROPS
-from manifest_texts import LEVEL_TEXT, NOT_APPLICABLE, HOOK_COMMITS
+from manifest_texts import LEVEL_TEXT, NOT_APPLICABLE, HOOK_COMMITS, CLAIMED
 
 ids = [json.loads(l)["id"] for l in open(os.path.join(ROOT, "properties.jsonl"))]
 checks = []
 for pid in ids:
-    if pid not in PROPS:
+    if pid not in CLAIMED:
         continue
     t = LEVEL_TEXT[pid]
     checks.append({
@@ -28,8 +28,8 @@ manifest = {
     "setup_cmd": "./setup.sh",
     "hooks": {
         "guard": "cargo feature `verif-hooks` of tracing-tunnel (off by default)",
-        "enable": "harness/Cargo.toml depends on /repo/tunnel by path with features = [\"sender\", \"receiver\", \"verif-hooks\"] once hooks exist; currently no hook is needed by any claimed check",
-        "baseline_off_cmd": "cd /repo && cargo test --workspace --no-fail-fast --offline",
+        "enable": "harness/Cargo.toml depends on /repo/tunnel by path with features = [\"sender\", \"receiver\", \"verif-hooks\"]; every check rebuilds the harness (and with it /repo's working tree) with `cargo build --release --offline`",
+        "baseline_off_cmd": "cd /repo && (cargo nextest run --workspace --no-fail-fast --tool-config-file pb:/w/lib/nextest.toml --profile pb --test-threads 8 --offline || cargo test --workspace --no-fail-fast --offline)",
         "source_commits": HOOK_COMMITS,
         "add_only": True,
     },
@@ -40,7 +40,7 @@ manifest = {
         "kind_free_text": "machine-checked proof in Coq 8.16.1 over hand-written executable models; models tied to /repo on every run by a correspondence check evaluated with vm_compute inside Coq",
     }],
     "checks": checks,
-    "not_applicable": [{"property_id": p, "reason": NOT_APPLICABLE[p]} for p in ids if p not in PROPS],
+    "not_applicable": [{"property_id": p, "reason": NOT_APPLICABLE[p]} for p in ids if p not in CLAIMED],
     "notes": "See DESIGN.md. known_findings.txt lists recorded findings and fixes.",
 }
 json.dump(manifest, open(os.path.join(ROOT, "MANIFEST.json"), "w"), indent=1)
